@@ -6,6 +6,7 @@
     from empty directories), and are proved by induction over [ops] in Node/OwnersP.v. *)
 From Coq Require Import ZArith List Bool.
 From TM Require Import Node.Owners Node.OwnersP.
+From TM Require Import Base.ShapeCanon.
 Import ListNotations.
 Open Scope Z_scope.
 
@@ -260,3 +261,10 @@ Example C14_spec_repeat_raises :
   let s2 := fst (step ex_c (SpecCreate ex_spec 9) empty_state) in
   step ex_c (SpecCreate ex_spec 2) s2 = (s2, ROk) /\ s_specs s2 = [(ex_spec, 9)].
 Proof. vm_compute. repeat split. Qed.
+
+(** the functions named by this property's anchors still have the statement skeleton the model was written from
+    (re-extracted from the Python AST on every run, harness/tables_shape.py + harness/shape_pins.json; kept last so that
+    a difference does not stop the theorems above from being checked) *)
+Theorem C14_source_shape : shapes_ok_C14 = true.
+Proof. vm_compute. reflexivity. Qed.
+Print Assumptions C14_source_shape.
